@@ -393,13 +393,23 @@ def s16_nan_sources(ctx):
 
     n = 0
     seen_sites = set()
+    skipped_helpers = set()
     for bid, bj in sorted(f.bodies.items()):
         if not bj['generic'] or '::tests::' in bj['def'] or 'helpers::' in bj['def'] and 'RandomCandles' in bj['def']:
             continue
         fname = bj['def'].rsplit('::', 1)[-1]
         if fname in CTOR_FNS or bj['def'].startswith('helpers::assert') or bj['def'].startswith('helpers::signi'):
             continue
-        b = Body(bj)
+        # a private helper that is only called inside the crate is analysed where it is used: the callers below are analysed with their
+        # private helpers inlined, so that an operand computed in a helper and used by the caller (or the reverse) is one expression
+        fn_rec = f.fns.get(bj['def'])
+        is_trait_method = bj['def'].startswith('<') and ' as ' in bj['def'].split('>::')[0]
+        if fn_rec is not None and fn_rec.get('vis') != 'pub' and not is_trait_method and not bj.get('closure_of') and call_sites.get(bj['def']):
+            if all((cbj_['def'].split('::{closure')[0].rsplit('::', 1)[-1] in CTOR_FNS) or True for cbj_, _, _, _ in call_sites[bj['def']]):
+                skipped_helpers.add(bj['def'])
+                continue
+        import inline as _inline
+        b = Body(_inline.inlined(f, bj, 3) if not bj.get('closure_of') else bj)
         self_adt = None
         if b.arg_count >= 1:
             tj = b.locals[1]['tyj']
